@@ -161,10 +161,10 @@ def gen_union(rng, depth=0, maxdepth=3):
 
 
 NEIGHBOURHOODS = {
-    "tuples": ["Tuple[()]", "Tuple[int]", "Tuple[int, int]", "Tuple[str]", "Tuple[str, str]", "Tuple[int, str]", "Tuple[A]", "Tuple[B, B]"],
+    "tuples": ["Tuple[()]", "Tuple[int]", "Tuple[int, int]", "Tuple[str]", "Tuple[str, str]", "Tuple[int, str]", "Tuple[A]", "Tuple[B, B]", "NoneType"],
     "classes": ["A", "B", "C", "D", "M", "NoneType", "int", "X1", "X2", "R1", "Type[A]"],
     "dicts": ["Dict[str, int]", "Dict[str, str]", "Dict[int, int]", "Dict[Any, Any]", "DefaultDict[str, int]", "DefaultDict[Any, Any]",
-              "Dict[str, List[Any]]", "Dict[str, List[int]]", "List[int]"],
+              "Dict[str, List[Any]]", "Dict[str, List[int]]", "List[int]", "NoneType"],
     "empties": ["List[Any]", "List[int]", "Set[Any]", "Set[str]", "Dict[Any, Any]", "Dict[str, int]", "DefaultDict[Any, Any]", "DefaultDict[str, int]",
                 "Iterator[Any]", "Generator[int, NoneType, NoneType]", "Tuple[()]", "Tuple[int]", "NoneType", "int"],
 }
